@@ -23,6 +23,9 @@ func init() {
 			"boundary (outside the exactly modelled domain, zero, negative) or whose target differs from the source type",
 		NonTrivial: func(seg []Ev) string {
 			e := seg[0]
+			if len(seg) > 1 {
+				return fmt.Sprint(seg)
+			}
 			v := e["v"].(Ev)
 			return fmt.Sprint(e["op"], e["mgr"], v["t"], v["s"], e["to"], e["via"])
 		},
@@ -31,6 +34,7 @@ func init() {
 
 func c07pool(r func(int) int, extra int) []*variants.Variant {
 	pool := valuePool(true)
+	defer func() { c07base = c07twins - 29 }()
 	pool = append(pool,
 		variants.VariantFromInteger(1<<53), variants.VariantFromInteger(1<<53+1), variants.VariantFromLong(1<<53+1), variants.VariantFromLong(-(1 << 53)),
 		variants.VariantFromLong(1<<60+1<<36+1), variants.VariantFromLong(-(1<<60 + 1<<36 + 1)), variants.VariantFromLong(1<<60+3<<36-1), variants.VariantFromInteger(1<<60+1<<36+1),
@@ -41,6 +45,14 @@ func c07pool(r func(int) int, extra int) []*variants.Variant {
 		variants.VariantFromTimeSpan(90*time.Minute), variants.VariantFromTimeSpan(-3*time.Millisecond), variants.VariantFromTimeSpan(1500*time.Microsecond),
 		variants.VariantFromDateTime(time.Unix(1000, 0)), variants.VariantFromDateTime(time.Unix(1000, 500)), variants.VariantFromDateTime(time.Unix(-86400, 0)),
 	)
+	// values whose 64-bit payloads coincide across types (a Long holding the bits of a Double), strings that differ only slightly
+	for _, d := range []float64{1.0, 2.5, -0.5, 0.1, 7, 1e300} {
+		bits := int64(math.Float64bits(d))
+		pool = append(pool, variants.VariantFromDouble(d), variants.VariantFromLong(bits), variants.VariantFromInteger(int(bits)))
+	}
+	pool = append(pool, variants.VariantFromDouble(math.Copysign(0, -1)), variants.VariantFromFloat(1), variants.VariantFromLong(int64(math.Float32bits(1))),
+		variants.VariantFromString("70"), variants.VariantFromString("5"), variants.VariantFromString("true"), variants.VariantFromString("1.5"), variants.VariantFromString("1"))
+	c07twins = len(pool)
 	for i := 0; i < extra; i++ {
 		switch r(6) {
 		case 0:
@@ -60,6 +72,8 @@ func c07pool(r func(int) int, extra int) []*variants.Variant {
 	return pool
 }
 
+var c07twins = 0 // pool[c07base:c07twins] are the payload twins
+var c07base = 0
 var c07extra = 0
 var c07seed int64 = 1
 
@@ -97,6 +111,11 @@ func numInfo(v *variants.Variant) (le53, integral bool) {
 
 func execC07(seg []Ev) []Ev {
 	out := make([]Ev, 0, len(seg))
+	// state of a history segment: one long-lived manager, one reusable source variant, every result handed out so far
+	var hm variants.IVariantOperations
+	var hsrc *variants.Variant
+	var held []*variants.Variant
+	short := func(v *variants.Variant) []any { j := valJSON(v); return []any{j["t"], j["s"]} }
 	for _, in := range seg {
 		c07extra = toInt(in["extra"])
 		c07seed = int64(toInt(in["pseed"]))
@@ -106,6 +125,29 @@ func execC07(seg []Ev) []Ev {
 		op := toStr(in["op"])
 		e := Ev{"op": op, "vi": vi, "extra": c07extra, "pseed": int(c07seed), "v": valJSON(v)}
 		switch op {
+		case "hstart":
+			hm, hsrc, held = c06mgr(toStr(in["mgr"])), variants.EmptyVariant(), nil
+			e["mgr"] = toStr(in["mgr"])
+		case "hconv":
+			to, inplace := toStr(in["to"]), toBool(in["inplace"])
+			src := v
+			if inplace {
+				guarded(func() { hsrc.Assign(v) })
+				src = hsrc
+			}
+			oc, r, _ := opOutcome(func() (*variants.Variant, error) { return hm.Convert(src, vtypeByName[to]) })
+			fo, fr, _ := convCall(toStr(in["mgr"]), pool[vi%len(pool)].Clone(), to)
+			e["mgr"], e["to"], e["inplace"], e["outcome"], e["r"], e["fo"], e["fr"] = toStr(in["mgr"]), to, inplace, oc, valJSON(r), fo, valJSON(fr)
+			e["keep"] = oc == "value" && r != src
+			if oc == "value" && r != src {
+				held = append(held, r)
+			}
+		case "hend":
+			now := make([]any, 0, len(held))
+			for _, h := range held {
+				now = append(now, short(h))
+			}
+			e["now"] = now
 		case "conv":
 			mgr, to := toStr(in["mgr"]), toStr(in["to"])
 			oc, r, det := convCall(mgr, v, to)
@@ -154,6 +196,35 @@ func genC07(g *Gen) {
 			e[kv[i].(string)] = kv[i+1]
 		}
 		return e
+	}
+	// histories on one manager: every conversion equals the one a fresh manager makes; results handed out stay as they were
+	rr := g.Rand()
+	for _, mgr := range []string{"unsafe", "safe"} {
+		for a := c07base; a < c07twins; a++ {
+			for b := c07base; b < c07twins; b++ {
+				for _, to := range vtypeOrder {
+					if to != "String" && (a*31+b*7)%5 != 0 && !g.Thorough() {
+						continue
+					}
+					inplace := (a+b)%2 == 0
+					g.Run("pairs of conversions on one manager (payload twins, reused source variant)", []Ev{mk("op", "hstart", "mgr", mgr, "vi", 0),
+						mk("op", "hconv", "mgr", mgr, "vi", a, "to", to, "inplace", inplace), mk("op", "hconv", "mgr", mgr, "vi", b, "to", to, "inplace", inplace), mk("op", "hend", "vi", 0)})
+				}
+			}
+		}
+		for rep := 0; rep < g.Pick(4, 40); rep++ {
+			seg := []Ev{mk("op", "hstart", "mgr", mgr, "vi", 0)}
+			steps := []int{70, 130, 300, 1100}[rep%4]
+			for i := 0; i < steps; i++ {
+				to := vtypeOrder[rr.Intn(len(vtypeOrder))]
+				if mgr == "safe" && rr.Intn(3) != 0 {
+					to = []string{"Long", "Float", "Double"}[rr.Intn(3)]
+				}
+				seg = append(seg, mk("op", "hconv", "mgr", mgr, "vi", rr.Intn(n), "to", to, "inplace", rr.Intn(3) == 0))
+			}
+			seg = append(seg, mk("op", "hend", "vi", 0))
+			g.Run("long conversion histories on one manager", seg)
+		}
 	}
 	for vi := 0; vi < n; vi++ {
 		for _, to := range vtypeOrder {
